@@ -278,7 +278,7 @@ func tallyStep(u *ssa.MapUpdate, fi int, isTable func(ssa.Value) bool, P, delta 
 		return false
 	}
 	// straight-line reading of the block: what field fi of the local holds when the record is stored
-	state := "" // "", "old", "sum"
+	state := ""                   // "", "old", "sum"
 	loads := map[ssa.Value]bool{} // loads of field fi while it still held the old value
 	for _, in := range u.Block().Instrs {
 		if in == ssa.Instruction(u) {
